@@ -297,6 +297,9 @@ class C19(Prop):
             w = ctxlevel.delete_requests(rndc)
             if w:
                 bads.append(dict(what=w, input="ctxlevel.delete_requests()", finding=None))
+            w = ctxlevel.retarget_and_delete(rndc)
+            if w:
+                bads.append(dict(what=w, input="ctxlevel.retarget_and_delete()", finding=None))
         return dict(evaluations=len(pairs) + extra, violations=bads[:10], samples=[{"oracle": "the property's clauses checked directly on the module delete_symbols() leaves; RewritingContext.delete_symbol request sequences"}])
 
     def replay(self, path):
